@@ -131,6 +131,10 @@ func (r *dataReader) Read(b []byte) (n int, err error) {
 				r.state = stateBeginLine
 				break
 			}
+			if c == '\r' {
+				// Still a candidate for the CR of a CRLF.
+				break
+			}
 			r.state = stateData
 		case stateData:
 			if c == '\r' {
